@@ -215,8 +215,10 @@ class BinningDefinition(object):
             True if any data value is outside the binning range.
             False otherwise.
         """
-        outofrange = np.any((data < self.lower_edge) |
-                            (data > self.upper_edge))
+        # Note: The comparison is written such that NaN values are out of
+        # range.
+        outofrange = np.any(~((data >= self.lower_edge) &
+                              (data <= self.upper_edge)))
         return outofrange
 
     def get_binwidth_from_value(self, value):
@@ -243,9 +245,9 @@ class BinningDefinition(object):
             The 1D ndarray with data outside the range of this binning
             definition.
         """
-        oor_mask = (
-            (data < self.lower_edge) |
-            (data > self.upper_edge)
+        oor_mask = ~(
+            (data >= self.lower_edge) &
+            (data <= self.upper_edge)
         )
         oor_data = data[oor_mask]
 
